@@ -21,6 +21,8 @@ func (s *State) evalAssignment(right object.Object, node *ast.InfixExpression) o
 		log.Warnf("Not assigning %q", right.Inspect())
 		return right
 	}
+	// A register is a live slot, what gets stored (in a variable, array element or map entry) must be its value.
+	right = object.CopyRegister(right)
 	switch node.Left.Value().Type() {
 	case token.DOT:
 		idxE, ok := node.Left.(*ast.IndexExpression)
@@ -364,12 +366,12 @@ func (s *State) evalMapLiteral(node *ast.MapLiteral) object.Object {
 
 	for _, keyNode := range node.Order {
 		valueNode := node.Pairs[keyNode]
-		key := s.Eval(keyNode)
+		key := object.CopyRegister(s.Eval(keyNode))
 		if !object.Equals(key, key) {
 			log.Warnf("key %s is not hashable", key.Inspect())
 			return s.NewError("key " + key.Inspect() + " is not hashable")
 		}
-		value := s.Eval(valueNode)
+		value := object.CopyRegister(s.Eval(valueNode))
 		result = result.Set(key, value)
 	}
 	return result
